@@ -1,6 +1,6 @@
 (* Property C02 — a multi-variable query returns exactly the satisfying assignments.
    Only statements, `exact`, and Print Assumptions. *)
-From EQL Require Import Base Values Syntax Spec Generated Elab Elab_Facts EvalPure EvalPure_Facts Query_Facts Elab_Frag Infer_Facts.
+From EQL Require Import Base Values Syntax Spec Generated Elab Elab_Facts EvalPure EvalPure_Facts Query_Facts Elab_Frag Infer_Facts Dedup Dedup_Facts.
 
 (* U = the variables of the query (any number), each with a duplicate-free domain; sc = any condition the user can write
    over them (mentioning any subset, self-joins, chained attributes, nested sub-queries as conditions, negation at any depth);
@@ -62,6 +62,62 @@ Theorem C02_partition : forall h dom U,
   cover U true (eval h dom c b ywf) e = ind (ywf && negb (isat h dom c e)).
 Proof. exact eval_cover. Qed.
 Print Assumptions C02_partition.
+
+(* ---- the same two statements WITH the de-duplication of rows in place (Dedup.v: the per-operator seen sets of
+   `_is_duplicate_output_`, keyed on the variables `_required_variables_from_child_` reports; run_queryD is tied to symbolic.py by
+   exact row SEQUENCES of projections).  An operator may drop a row only if what it drops is still delivered: ---- *)
+Theorem C02_dedup_complete : forall h dom U xs sc ic e,
+  (forall x, In x U -> NoDup (dom x)) -> sbasic U sc = true -> elab sc = Some ic -> (forall x, In x xs -> In x U) ->
+  valid dom U e -> sat h dom sc e = true ->
+  In (map e xs) (run_queryD h dom (map TVar xs) (Some ic)).
+Proof.
+  intros h dom U xs sc ic e ND S E HU V T. apply (dedup_complete h dom U ND xs ic e (elab_basic U sc ic E S) HU V).
+  now rewrite (elab_sat h dom sc ic E e).
+Qed.
+Print Assumptions C02_dedup_complete.
+
+Theorem C02_dedup_sound : forall h dom U xs sc ic r,
+  (forall x, In x U -> NoDup (dom x)) -> sbasic U sc = true -> elab sc = Some ic -> (forall x, In x xs -> In x U) ->
+  (forall x, In x U -> dom x <> []) ->
+  In r (run_queryD h dom (map TVar xs) (Some ic)) ->
+  exists e, valid dom U e /\ sat h dom sc e = true /\ r = map e xs.
+Proof.
+  intros h dom U xs sc ic r ND S E HU NE H.
+  destruct (dedup_sound h dom U ND xs ic r (elab_basic U sc ic E S) HU NE H) as (e & V & T & R).
+  exists e. split; [exact V|]. split; [|exact R]. now rewrite <- (elab_sat h dom sc ic E e).
+Qed.
+Print Assumptions C02_dedup_sound.
+
+(* the invariant behind them: over ALL activations of a node in one evaluation, whatever an activation should serve is covered by
+   an emitted row with the same truth value that agrees with it on the variables the node's parent requires *)
+Theorem C02_dedup_cover : forall h dom U,
+  (forall x, In x U -> NoDup (dom x)) -> forall c, basic U c = true -> forall k bs ywf, Forall (in_dom dom) bs ->
+  forall b e f, In b bs -> target h dom U c ywf b e f -> covered dom U k (fst (evalDs h dom c k bs ywf DL)) e f.
+Proof. exact evalDs_cover. Qed.
+Print Assumptions C02_dedup_cover.
+
+(* what the proof needs of BinaryOperator / OR `._required_variables_from_child_` as extracted from the source on this run:
+   in particular a TRUE left operand of a conjunction asks the parent what it requires in EITHER case (the conjunction may still
+   come out false and be handed to the other branch of an enclosing disjunction) *)
+Theorem C02_required_variables :
+  (forall t, and_adds_right true t = true) /\ and_parent_arg true (Some true) = None /\
+  and_parent_arg true (Some false) = Some false /\ (forall t, and_parent_arg false t = t) /\
+  or_parent_arg true (Some true) = Some true /\ or_adds_right true (Some false) = true /\
+  or_parent_arg true (Some false) = None /\ (forall t, or_parent_arg false t = t) /\
+  and_parent_arg true None = None /\ or_parent_arg true None = None /\ or_adds_right true None = true.
+Proof. exact req_tables. Qed.
+Print Assumptions C02_required_variables.
+
+(* non-vacuity of the de-duplication: or_(x.a == 5, x.a < y.a) selecting x: two assignments share the projection, the second row of
+   the disjunction's right side is dropped as a duplicate - the P-model returns the object twice, the D-model (and symbolic.py) once *)
+Example C02_dedup_fires :
+  let h := [[VInt 1]; [VInt 2]; [VInt 3]] in
+  let dom := fun k : key => match k with 1 => [VObj 0] | 2 => [VObj 1; VObj 2] | _ => [] end in
+  let a t := TMap (MField 0) t in
+  let sc := SOr (SCmp Eq (a (TVar 1)) (TLit (VInt 5))) (SCmp Lt (a (TVar 1)) (a (TVar 2))) in
+  sbasic [1; 2] sc = true /\
+  exists ic, elab sc = Some ic /\ run_query h dom [TVar 1] (Some ic) = [[VObj 0]; [VObj 0]] /\ run_queryD h dom [TVar 1] (Some ic) = [[VObj 0]].
+Proof. cbv zeta. split; [reflexivity|]. eexists. split; [vm_compute; reflexivity|]. split; vm_compute; reflexivity. Qed.
 
 (* non-vacuity: three variables, a self-join on a chained attribute, a disjunction whose branches mention different variables,
    one variable mentioned nowhere in the condition; 8 of 18 assignments qualify *)
